@@ -119,8 +119,12 @@ func runSelftest(args []string) int {
 				failedNames = append(failedNames, shortKey(r.Fn)+":"+r.O.Name)
 			}
 		}
+		deadOK := map[string]bool{}
+		for _, d := range pc.DeadOK {
+			deadOK[d] = true
+		}
 		for _, c := range covers {
-			if c.Res.Status == "unsat" {
+			if c.Res.Status == "unsat" && !deadOK[c.Fn+"|"+c.O.Name] {
 				failedNames = append(failedNames, shortKey(c.Fn)+":"+c.O.Name)
 			}
 		}
